@@ -109,12 +109,12 @@ FRAME
 file = "src/coloquinte.cpp"
 head = 'void Circuit::setNets\('
 rewrites = [['\b(netLimits_|pinCells_|pinXOffsets_|pinYOffsets_|netWeights_) = (\w+);', 'VEC_COPY(\1, \2);', '5'],
-            ['\(size_t\)', '(size_t)', '*'], ['size_t i = 0; i \+ 1 < limits\.size\(\)', 'int i = 0; i + 1 < limits_size', '1']]
+            ['\(size_t\)', '(size_t)', '*'], ['size_t i = (\d+); i( \+ 1)? < limits\.size\(\)', 'int i = \1; i\2 < limits_size', '1']]
 [[loops]]
 ordinal = 1
 contract = '''
 __CPROVER_assigns(i)
-__CPROVER_loop_invariant(0 <= i && i < limits_size)
+__CPROVER_loop_invariant(0 <= i && (i <= limits_size || i <= 2))
 __CPROVER_loop_invariant((g_idx < i && g_idx + 1 < limits_size) ==> limits[g_idx] <= limits[g_idx + 1])
 __CPROVER_decreases(limits_size - i)
 '''
